@@ -62,3 +62,51 @@ def rng(seed: int, case_id) -> np.random.RandomState:
 
 
 VERIF_SEED = int(os.environ.get("VERIF_SEED", "0"))
+
+
+# ---------------------------------------------------------------------------------------------------------------------------------
+# Alias-preserving deep copies.  The explorers branch by `copy.deepcopy` of the whole set of live objects; what they look for after a
+# branch point includes buffer sharing between objects (a "copy" that is a reference).  Two things defeat the standard deepcopy here:
+#  * renormalizer's Matrix forwards unknown attributes to its ndarray, so deepcopy finds ndarray.__deepcopy__ through Matrix.__getattr__
+#    and copies the array without consulting the memo: two Matrix objects wrapping the SAME ndarray come out with two arrays;
+#  * ndarray views (a[...], a.T, a.real of a real array ...) are copied as independent arrays.
+# The copiers below are registered for the exact classes, which copy.deepcopy consults before looking for __deepcopy__.
+import copy as _copy  # noqa: E402
+
+
+def _deepcopy_ndarray(a, memo):
+    if a.dtype == object:
+        return np.ndarray.__deepcopy__(a, memo)
+    base = a.base
+    if isinstance(base, np.ndarray) and type(base) is np.ndarray and base.dtype == a.dtype:
+        nb = _copy.deepcopy(base, memo)          # memoised: every view of one buffer lands on one new buffer
+        try:
+            off = a.__array_interface__["data"][0] - base.__array_interface__["data"][0]
+            if nb.strides == base.strides and off >= 0:
+                v = np.ndarray(a.shape, dtype=a.dtype, buffer=nb, offset=off, strides=a.strides)
+                return v
+        except (TypeError, ValueError):
+            pass
+    return a.copy(order="K")
+
+
+_copy._deepcopy_dispatch[np.ndarray] = _deepcopy_ndarray
+
+
+def _install_matrix_copier():
+    try:
+        from renormalizer.mps.matrix import Matrix
+    except Exception:       # the package under test may be broken in a way that prevents the import: checks report that themselves
+        return
+
+    def _deepcopy_matrix(m, memo):
+        new = Matrix.__new__(Matrix)
+        memo[id(m)] = new
+        for k, v in m.__dict__.items():
+            new.__dict__[k] = _copy.deepcopy(v, memo)
+        return new
+
+    _copy._deepcopy_dispatch[Matrix] = _deepcopy_matrix
+
+
+_install_matrix_copier()
